@@ -121,7 +121,11 @@ pub fn gen_case(rng: &mut Rng, cfg: &GenCfg) -> Case {
                 which => {
                     let mine: Vec<u32> = tags.iter().filter(|(w, _)| w == which).map(|(_, t)| *t).collect();
                     let tag = if mine.is_empty() || wr.chance(1, 5) { 999 } else { *wr.pick(&mine) };
-                    Op::UseValidator { which: *which, tag, direct: wr.chance(1, 3) }
+                    if *which == Setting::Namespace && wr.chance(1, 3) {
+                        Op::UseNamespaceInherited { tag }
+                    } else {
+                        Op::UseValidator { which: *which, tag, direct: wr.chance(1, 3) }
+                    }
                 }
             };
         }
